@@ -1396,7 +1396,16 @@ impl World {
         if !m.has_staging() {
             return;
         }
-        let before = obs_full(m);
+        // (a staged body whose twin is already stored - an orphan body whose pack arrived from elsewhere - is
+        // redundant: replay_stage does not stage it again; staged keys are compared modulo stored digests)
+        let stored: BTreeSet<String> = m.verif_data_index().0.into_iter().map(|x| x.0).collect();
+        let modulo_stored = |mut v: Value| -> Value {
+            if let Some(ks) = v.get_mut("stage_keys").and_then(|x| x.as_array_mut()) {
+                ks.retain(|k| k.as_str().map(|s| !stored.contains(s)).unwrap_or(true));
+            }
+            v
+        };
+        let before = modulo_stored(obs_full(m));
         let s = m.stage().unwrap();
         self.emit("export", r, "ok", json!({"stage": s}));
         let m = self.reps[r].m.as_mut().unwrap();
@@ -1413,7 +1422,7 @@ impl World {
         if let Err(e) = m.replay_stage(&s) {
             fails.push(("C15", format!("replaying an exported stage failed: {}", msg_prefix(&e.to_string()))));
         }
-        let after = obs_full(m);
+        let after = modulo_stored(obs_full(m));
         self.emit("replay", r, "ok", json!({"stage": s}));
         if after != before {
             fails.push(("C15", format!("export, discard and replay does not restore the staged state: {}", first_diff(&before, &after))));
